@@ -95,6 +95,10 @@ class NestedParent(WrappingQuery):
         return self.__class__(self.parents, child, self.per_parent_limit,
                               self.score_fn)
 
+    def field(self):
+        # The matched (parent) documents need not have the child query's field
+        return None
+
     def normalize(self):
         p = self.parents
         if isinstance(p, qcore.Query):
@@ -271,6 +275,10 @@ class NestedChildren(WrappingQuery):
 
     def _rewrap(self, child):
         return self.__class__(self.parents, child, self.boost)
+
+    def field(self):
+        # The matched (child) documents need not have the parent query's field
+        return None
 
     def matcher(self, searcher, context=None):
         bits = searcher._filter_to_comb(self.parents)
